@@ -100,7 +100,9 @@ def task_density(arg):
     for T in arg["T"]:
         for delta in deltas():
             for F in force_patterns():
-                sim, atoms = make(F, delta, T)
+                sim, atoms = make(F, delta, T if not arg.get("retemper") else 3.0 * T + 50.0)
+                if arg.get("retemper"):
+                    sim.temperature = T  # heated / cooled after construction
                 try:
                     with np.errstate(all="ignore"):
                         sim.calculate_gamma(F)
@@ -161,7 +163,7 @@ def task_step(arg):
     counters = {"evaluations": 0, "nontrivial": 0}
     viol, seen, V = _adder(arg, "task_step")
     T = arg["T"]
-    masses_opts = [None, [1.0, 63.5, 197.0], "changed-after-construction"]
+    masses_opts = [None, [1.0, 63.5, 197.0], "changed-after-construction", "driver-masses-only"]
     powers = [0.25, 0.5, {"Cu": 0.3, "H": 0.1}, np.array([[0.25, 0.5, 0.1], [0.0, 0.3, 0.25], [1.0, 0.25, 0.4]])]
     # first-round answers per coordinate: (zeta quantile, u quantile); later rounds accept
     first_rounds = [
@@ -175,12 +177,18 @@ def task_step(arg):
             for mi, masses in enumerate(masses_opts):
                 for pw in powers:
                     for fr, (zq, uq) in enumerate(first_rounds):
-                        sim, atoms = make(F, delta, T, masses=None if isinstance(masses, str) else masses)
+                        sim, atoms = make(F, delta, T if not arg.get("retemper") else 7.0 * T + 11.0, masses=None if isinstance(masses, str) else masses)
                         try:
                             sim.masses_scaling_power = pw if not isinstance(pw, float) else float(pw)
-                            if isinstance(masses, str):  # e.g. an isotope substitution, then the documented update_masses()
+                            if masses == "changed-after-construction":  # e.g. an isotope substitution, then the documented update_masses()
                                 atoms.set_masses([12.0, 197.0, 2.0])
                                 sim.update_masses()
+                            custom = None
+                            if masses == "driver-masses-only":  # fictitious displacement masses, atoms untouched
+                                custom = np.array([[4.0, 4.0, 4.0], [64.0, 64.0, 64.0], [16.0, 1.0, 16.0]])
+                                sim.update_masses(custom)
+                            if arg.get("retemper"):  # temperature ramp: changed on the existing object
+                                sim.temperature = T
                             # later rounds: zeta alternates around 0 (P ~ 1), u = 0 -> accepted
                             later = []
                             for _ in range(12):
@@ -205,7 +213,7 @@ def task_step(arg):
                             if rounds["n"] > 1:
                                 counters["nontrivial"] += 1
                             dx = atoms.positions - before
-                            m = atoms.get_masses()[:, None] * np.ones((1, 3))
+                            m = atoms.get_masses()[:, None] * np.ones((1, 3)) if custom is None else custom
                             pwr = sim.masses_scaling_power
                             scale = np.power(m.min() / m, pwr)
                             bound = np.asarray(delta) * scale
@@ -274,9 +282,9 @@ def task_termination(arg):
 def run(tier, seed):
     rep = Report("exploration")
     acc = Acc()
-    for r in pmap(__name__, "task_density", [{"T": [T]} for T in (1.0, 300.0, 5000.0)]):
+    for r in pmap(__name__, "task_density", [{"T": [T]} for T in (1.0, 300.0, 5000.0)] + [{"T": [300.0], "retemper": True}]):
         acc.add(r)
-    for r in pmap(__name__, "task_step", [{"T": T, "stride": 3 if tier == "quick" else 1} for T in (1.0, 300.0, 5000.0)]):
+    for r in pmap(__name__, "task_step", [{"T": T, "stride": 3 if tier == "quick" else 1} for T in (1.0, 300.0, 5000.0)] + [{"T": 300.0, "stride": 5, "retemper": True}]):
         acc.add(r)
     seeds = list(range(32))
     for r in pmap(__name__, "task_termination", [{"seeds": seeds[i::8]} for i in range(8)]):
